@@ -264,7 +264,9 @@ INFO = dict(
                "polynomial / sum over the language for ALL weights. (b) On recursive grammars, through hook H1 the loop state of CFG.agenda is replaced "
                "by an ARBITRARY symbolic state (independent old/change values per symbol, each possibly zero) and one real iteration is run for an "
                "engine-chosen popped key; z3 proves (old'+change') - (old+change) = F(old') - F(old) for every symbol, which makes the invariant "
-               "old+change = F(old) inductive with no precondition. (c) Dependency blocks are the SCCs in an order compatible with the rules.",
+               "old+change = F(old) inductive with no precondition. (c) Dependency blocks are the SCCs in an order compatible with the rules. "
+               "(d) A coarse query (maxiter / tol) followed by a default query on the same object: exact on finite systems (symbolic) plus one "
+               "concrete float guard on recursive grammars (labelled concrete).",
     level_note="From the invariant, non-negativity and monotonicity of F the least-fixed-point claim follows on paper; termination and 'up to tolerance' "
                "are NOT claimed by the solver. Hook H1 (guard GENLM_GRAMMAR_VERIF=1) only observes/overwrites the loop state for this check.",
     design_ref="DESIGN.md section 3 C08",
